@@ -2,7 +2,7 @@
    the reachable references) is a graph isomorphism whenever the renaming is one-to-one on the ids
    the document uses; instantiation for the dense pass; dense numbering and max_id. *)
 From LV Require Import Base.Bytes Model.Obj Model.DocQ Model.PageTree Model.Traverse Model.Renumber
-  Spec.RenumberSpec Proofs.RenumberProofsMap Proofs.RenumberProofsTrav.
+  Spec.RenumberSpec Proofs.RenumberProofsMap Proofs.RenumberProofsTrav Proofs.RenumberProofsTravO.
 
 (* ---------- rename / refs_of algebra ---------- *)
 Lemma refs_of_rename f o : refs_of (rename f o) = map f (refs_of o).
@@ -270,3 +270,150 @@ Section Pass.
         rewrite refs_of_rename. apply in_map. exact Hr.
   Qed.
 End Pass.
+
+(* ================= the pass that also writes dangling references as null =================
+   (dense pass since the repair of C10/dangling-in-range) *)
+
+(* ---------- rename_o / refs_of algebra ---------- *)
+Lemma refs_of_rename_o f o : refs_of (rename_o f o) = keep f (refs_of o).
+Proof.
+  induction o as [|b|z|r|n|s h|l Hl|d Hd|d c Hd|i g] using obj_ind'; try reflexivity; cbn [rename_o refs_of].
+  - induction Hl as [|x l Hx Hl IH]; cbn [map flat_map]; [reflexivity|]. rewrite keep_app. congruence.
+  - induction Hd as [|x l Hx Hl IH]; cbn [map flat_map]; [reflexivity|]. rewrite keep_app. cbn [snd]. congruence.
+  - induction Hd as [|x l Hx Hl IH]; cbn [map flat_map]; [reflexivity|]. rewrite keep_app. cbn [snd]. congruence.
+  - unfold keep. cbn [flat_map]. destruct (f (i, g)) as [[a b]|]; reflexivity.
+Qed.
+
+Lemma refs_of_rename_dict_o f d : refs_of_dict (rename_dict_o f d) = keep f (refs_of_dict d).
+Proof.
+  unfold refs_of_dict, rename_dict_o. induction d as [|x d IH]; cbn [map flat_map fst snd]; [reflexivity|].
+  rewrite keep_app, refs_of_rename_o. congruence.
+Qed.
+
+Lemma rename_o_ext f g o : (forall x, In x (refs_of o) -> f x = g x) -> rename_o f o = rename_o g o.
+Proof.
+  induction o as [|b|z|r|n|s h|l Hl|d Hd|d c Hd|i gg] using obj_ind'; intro H; try reflexivity; cbn [rename_o].
+  - f_equal. cbn [refs_of] in H. induction Hl as [|x l Hx Hl IH]; cbn [map]; [reflexivity|].
+    cbn [flat_map] in H. f_equal; [apply Hx | apply IH]; intros; apply H; apply in_app_iff; auto.
+  - f_equal. cbn [refs_of] in H. induction Hd as [|x l Hx Hl IH]; cbn [map]; [reflexivity|].
+    cbn [flat_map] in H. f_equal; [f_equal; apply Hx | apply IH]; intros; apply H; apply in_app_iff; auto.
+  - f_equal. cbn [refs_of] in H. induction Hd as [|x l Hx Hl IH]; cbn [map]; [reflexivity|].
+    cbn [flat_map] in H. f_equal; [f_equal; apply Hx | apply IH]; intros; apply H; apply in_app_iff; auto.
+  - rewrite H; [reflexivity | left; reflexivity].
+Qed.
+
+Lemma rename_dict_o_ext f g d : (forall x, In x (refs_of_dict d) -> f x = g x) -> rename_dict_o f d = rename_dict_o g d.
+Proof.
+  unfold rename_dict_o, refs_of_dict. induction d as [|x d IH]; cbn [map flat_map]; intro H; [reflexivity|].
+  f_equal; [f_equal; apply rename_o_ext | apply IH]; intros; apply H; apply in_app_iff; auto.
+Qed.
+
+(* renaming by a total function first, then by a partial one *)
+Lemma rename_o_rename f a o : rename_o a (rename f o) = rename_o (fun x => a (f x)) o.
+Proof.
+  induction o as [|b|z|r|n|s h|l Hl|d Hd|d c Hd|i gg] using obj_ind'; try reflexivity; cbn [rename rename_o].
+  - f_equal. induction Hl as [|x l Hx Hl IH]; cbn [map]; [reflexivity|]. congruence.
+  - f_equal. induction Hd as [|x l Hx Hl IH]; cbn [map]; [reflexivity|]. cbn [fst snd]. congruence.
+  - f_equal. induction Hd as [|x l Hx Hl IH]; cbn [map]; [reflexivity|]. cbn [fst snd]. congruence.
+  - unfold ref_obj. destruct (f (i, gg)) as [p q] eqn:E. cbn [rename_o fst snd]. reflexivity.
+Qed.
+
+Lemma rename_dict_o_rename f a d : rename_dict_o a (rename_dict f d) = rename_dict_o (fun x => a (f x)) d.
+Proof.
+  unfold rename_dict_o, rename_dict. induction d as [|x d IH]; cbn [map]; [reflexivity|]. cbn [fst snd].
+  rewrite rename_o_rename. congruence.
+Qed.
+
+Lemma live_some m rho id : has_obj m id -> live m rho id = Some (rho id).
+Proof. intro H. unfold live. destruct (has_lookup m id H) as [o ->]. reflexivity. Qed.
+
+Lemma live_none m rho id : ~ has_obj m id -> live m rho id = None.
+Proof. intro H. unfold live. apply lookup_none in H. rewrite H. reflexivity. Qed.
+
+Lemma live_inv m rho id y : live m rho id = Some y -> has_obj m id /\ y = rho id.
+Proof.
+  unfold live. destruct (lookup m id) eqn:E; intro H; inversion H. split; [eapply lookup_has; eauto | reflexivity].
+Qed.
+
+Section PassO.
+  Variable tr : dict.
+  Variable m : objmap.
+  Variable g : oid -> oid.            (* the renaming of the ids that name objects *)
+  Variable a : oid -> option oid.     (* the action on references *)
+  Hypothesis Ha : forall id, a id = live m g id.
+  Hypothesis Hinj : inj_on (has_obj m) g.
+
+  (* the map after re-keying *)
+  Variable m2 : objmap.
+  Hypothesis Hm2_fwd : forall id, has_obj m id -> lookup m2 (g id) = lookup m id.
+  Hypothesis Hm2_bwd : forall x, has_obj m2 x -> exists id, has_obj m id /\ x = g id.
+
+  Lemma a_some id : has_obj m id -> a id = Some (g id).
+  Proof. intro H. rewrite Ha. apply live_some. exact H. Qed.
+
+  Lemma a_inv id y : a id = Some y -> has_obj m id /\ y = g id.
+  Proof. rewrite Ha. apply live_inv. Qed.
+
+  Lemma reachfo_iff x : reachfo a tr m2 x <-> exists id, reach tr m id /\ has_obj m id /\ x = g id.
+  Proof.
+    split.
+    - induction 1 as [r0 y Hr Er | z o r0 y Hz IH Hl Hr Er].
+      + apply a_inv in Er. destruct Er as [Hh ->]. exists r0. split; [apply reach_root; exact Hr | auto].
+      + destruct IH as [id [Hid [Hh ->]]]. apply a_inv in Er. destruct Er as [Hh0 ->].
+        exists r0. split; [|auto]. rewrite Hm2_fwd in Hl by exact Hh. eapply reach_step; eauto.
+    - intros [id [Hid [Hh ->]]]. revert Hh. induction Hid as [r0 Hr | id o r0 Hid IH Hl Hr]; intro Hh.
+      + eapply reachfo_root; [exact Hr | apply a_some; exact Hh].
+      + assert (Hi : has_obj m id) by (eapply lookup_has; eauto).
+        eapply reachfo_step; [exact (IH Hi) | rewrite Hm2_fwd by exact Hi; exact Hl | exact Hr | apply a_some; exact Hh].
+  Qed.
+
+  Variable tr' : dict.
+  Variable m3 : objmap.
+  Hypothesis Htr : tr' = rename_dict_o a tr.
+  Hypothesis Hkeys3 : map fst m3 = map fst m2.
+  Hypothesis Hm3_in : forall x, reachfo a tr m2 x -> lookup m3 x = option_map (rename_o a) (lookup m2 x).
+  Hypothesis Hm3_out : forall x, ~ reachfo a tr m2 x -> lookup m3 x = lookup m2 x.
+
+  Lemma passo_reachable id : reach tr m id -> has_obj m id -> lookup m3 (g id) = option_map (rename_o a) (lookup m id).
+  Proof.
+    intros H Hh. rewrite Hm3_in by (apply reachfo_iff; eauto). rewrite Hm2_fwd by exact Hh. reflexivity.
+  Qed.
+
+  Lemma passo_unreachable id : has_obj m id -> ~ reach tr m id -> lookup m3 (g id) = lookup m id.
+  Proof.
+    intros Hh H. rewrite Hm3_out.
+    - apply Hm2_fwd. exact Hh.
+    - intro K. apply reachfo_iff in K. destruct K as [id' [Hr [Hh' E]]]. apply H.
+      replace id with id'; [exact Hr|]. symmetry. apply Hinj; auto.
+  Qed.
+
+  Lemma passo_has_fwd id : has_obj m id -> has_obj m3 (g id).
+  Proof.
+    intro H. unfold has_obj. rewrite Hkeys3. apply has_obj_lookup. rewrite Hm2_fwd by exact H.
+    apply has_obj_lookup. exact H.
+  Qed.
+
+  Lemma passo_has_bwd x : has_obj m3 x -> exists id, has_obj m id /\ x = g id.
+  Proof. unfold has_obj at 1. rewrite Hkeys3. apply Hm2_bwd. Qed.
+
+  Lemma passo_reach x : reach tr' m3 x <-> exists id, reach tr m id /\ has_obj m id /\ x = g id.
+  Proof.
+    subst tr'. split.
+    - induction 1 as [r0 Hr | y o r0 Hy IH Hl Hr].
+      + rewrite refs_of_rename_dict_o in Hr. apply keep_in in Hr. destruct Hr as [r1 [Hr E]].
+        apply a_inv in E. destruct E as [Hh ->]. exists r1. split; [apply reach_root; exact Hr | auto].
+      + destruct IH as [id [Hid [Hh ->]]]. rewrite passo_reachable in Hl by assumption.
+        destruct (lookup m id) as [o0|] eqn:E; cbn [option_map] in Hl; [|discriminate].
+        inversion Hl; subst o. rewrite refs_of_rename_o in Hr. apply keep_in in Hr. destruct Hr as [r1 [Hr Er]].
+        apply a_inv in Er. destruct Er as [Hh1 ->]. exists r1. split; [eapply reach_step; eauto | auto].
+    - intros [id [Hid [Hh ->]]]. revert Hh. induction Hid as [r0 Hr | id o r0 Hid IH Hl Hr]; intro Hh.
+      + apply reach_root. rewrite refs_of_rename_dict_o. apply keep_in. exists r0. split; [exact Hr | apply a_some; exact Hh].
+      + assert (Hi : has_obj m id) by (eapply lookup_has; eauto).
+        eapply reach_step; [exact (IH Hi) | rewrite passo_reachable by assumption; rewrite Hl; reflexivity|].
+        rewrite refs_of_rename_o. apply keep_in. exists r0. split; [exact Hr | apply a_some; exact Hh].
+  Qed.
+
+  (* afterwards no reachable reference is dangling *)
+  Lemma passo_closed : closed tr' m3.
+  Proof. intros x Hx. apply passo_reach in Hx. destruct Hx as [id [_ [Hh ->]]]. apply passo_has_fwd. exact Hh. Qed.
+End PassO.
